@@ -217,6 +217,9 @@ func (env *SpecEnv) lookupIdent(name string) (Val, bool) {
 	if v, ok := env.lets[name]; ok {
 		return v, true
 	}
+	if v, ok := env.cur().binds[name]; ok {
+		return v, true
+	}
 	if env.frame != nil && !env.inOld {
 		// a variable living in memory is read through its cell (the value
 		// recorded at its last use may be stale)
